@@ -12,6 +12,7 @@ func init() {
 }
 
 const concPlaceholder = `import GoUtils.Model.Runner
+import GoUtils.Model.CtxRunner
 namespace GoUtils.Generated.Conc
 open GoUtils.Runner
 def ok : Bool := false
@@ -19,6 +20,7 @@ def runner : Facts := default
 def parallelise : PFacts := default
 def store : StoreFacts := default
 def ctxRunner : CtxFacts := default
+def ctxBlock : GoUtils.CtxRunner.Facts := default
 end GoUtils.Generated.Conc
 `
 
@@ -93,21 +95,23 @@ func extractConc(root string) (string, map[string]any, error) {
 		return "", nil, fmt.Errorf("RunActionWithTimeoutAndCancelStore not found")
 	}
 	cb := norm(p.src(cr.Body))
-	crRe := regexp.MustCompile(`^\{ err := DetermineContextError\(ctx\) if err != nil \{ return err \} timeoutContext, timeoutCancel := context\.WithTimeout\(ctx, timeout\) store\.RegisterCancelFunction\(timeoutCancel\) defer timeoutCancel\(\) cancelCtx, actionCancel := context\.WithCancel\(ctx\) store\.RegisterCancelFunction\(actionCancel\) channel := make\(chan error, 1\) go func\(actionCtx context\.Context, action func\(context\.Context\) error\) \{ channel <- action\(actionCtx\) \}\(cancelCtx, blockingAction\) select \{ case err = <-channel: if err != nil \{ actionCancel\(\) <-cancelCtx\.Done\(\) \} err2 := DetermineContextError\(timeoutContext\) if err2 != nil \{ return err2 \} timeoutCancel\(\) return err case <-timeoutContext\.Done\(\): actionCancel\(\) timeoutCancel\(\) <-cancelCtx\.Done\(\) <-channel return (DetermineContextError\(timeoutContext\)|commonerrors\.ErrTimeout) \} \}$`)
+	crRe := regexp.MustCompile(`^\{ err := DetermineContextError\(ctx\) if err != nil \{ return err \} timeoutContext, timeoutCancel := context\.WithTimeout\(ctx, timeout\) store\.RegisterCancelFunction\(timeoutCancel\) defer timeoutCancel\(\) cancelCtx, actionCancel := context\.WithCancel\(ctx\) store\.RegisterCancelFunction\(actionCancel\) channel := make\(chan error, 1\) go func\(actionCtx context\.Context, action func\(context\.Context\) error\) \{ channel <- action\(actionCtx\) \}\(cancelCtx, blockingAction\) select \{ case err = <-channel: if err != nil \{ actionCancel\(\) <-cancelCtx\.Done\(\) \} err2 := DetermineContextError\(timeoutContext\) if err2 != nil \{ (<-channel )?return err2 \} timeoutCancel\(\) return err case <-timeoutContext\.Done\(\): actionCancel\(\) timeoutCancel\(\) <-cancelCtx\.Done\(\) <-channel return (DetermineContextError\(timeoutContext\)|commonerrors\.ErrTimeout) \} \}$`)
 	cm := crRe.FindStringSubmatch(cb)
 	if cm == nil {
 		return "", nil, fmt.Errorf("RunActionWithTimeoutAndCancelStore not recognised: %s", cb)
 	}
-	doneKindFromCtx := cm[1] == "DetermineContextError(timeoutContext)"
+	secondReceive := cm[1] != ""
+	doneKindFromCtx := cm[2] == "DetermineContextError(timeoutContext)"
 	wc := p.funcDecl("RunActionWithTimeoutAndContext")
 	if wc == nil || norm(p.src(wc.Body)) != "{ store := NewCancelFunctionsStore() defer store.Cancel() return RunActionWithTimeoutAndCancelStore(ctx, timeout, store, blockingAction) }" {
 		return "", nil, fmt.Errorf("RunActionWithTimeoutAndContext not recognised")
 	}
-	lean := fmt.Sprintf("import GoUtils.Model.Runner\nnamespace GoUtils.Generated.Conc\nopen GoUtils.Runner\ndef ok : Bool := true\n"+
+	lean := fmt.Sprintf("import GoUtils.Model.Runner\nimport GoUtils.Model.CtxRunner\nnamespace GoUtils.Generated.Conc\nopen GoUtils.Runner\ndef ok : Bool := true\n"+
 		"def runner : Facts := { resultCap := %s, stopCap := %s, waitsForAction := true }\n"+
 		"def parallelise : PFacts := { chanCapIsArgCount := %s, oneGoroutinePerArg := true, stopsAtFirstError := true }\n"+
 		"def store : StoreFacts := { registerExclusive := true, cancelHoldsLock := true, cancelInvokesAll := true }\n"+
-		"def ctxRunner : CtxFacts := { entryTestsParent := true, resultBranchRechecksContext := true, doneBranchKindFromContext := %s }\nend GoUtils.Generated.Conc\n",
-		rc, sc, leanBool(capIsLen), leanBool(doneKindFromCtx))
-	return lean, map[string]any{"resultCap": rc, "stopCap": sc, "paralleliseCapIsLen": capIsLen, "cancelLock": cancelLock, "ctxRunnerDoneBranchKindFromContext": doneKindFromCtx}, nil
+		"def ctxRunner : CtxFacts := { entryTestsParent := true, resultBranchRechecksContext := true, doneBranchKindFromContext := %s }\n"+
+		"def ctxBlock : GoUtils.CtxRunner.Facts := { resultBranchReceivesAgain := %s }\nend GoUtils.Generated.Conc\n",
+		rc, sc, leanBool(capIsLen), leanBool(doneKindFromCtx), leanBool(secondReceive))
+	return lean, map[string]any{"resultCap": rc, "stopCap": sc, "paralleliseCapIsLen": capIsLen, "cancelLock": cancelLock, "ctxRunnerDoneBranchKindFromContext": doneKindFromCtx, "ctxRunnerReadsTheResultTwice": secondReceive}, nil
 }
